@@ -327,6 +327,8 @@ class StmtMixin:
             variant0 = self.spec_eval(ls.decreases).z
         if cond():
             self.cover('%s/%s/body' % (self.unit_id, lab))
+            if ls.ghost_begin:
+                self.run_ghost(ls.ghost_begin)
             try:
                 self.exec_block(body)
             except BreakEx:
@@ -335,6 +337,8 @@ class StmtMixin:
                 pass
             if after_body is not None:
                 after_body()
+            if ls.ghost_end:
+                self.run_ghost(ls.ghost_end)
             self.check_invariant(ls, lab, 'preserved')
             if variant0 is not None:
                 v1 = self.spec_eval(ls.decreases).z
@@ -355,8 +359,15 @@ class StmtMixin:
             old = self.frame.locals.get(name)
             if old is not None and old.t is not TPy:
                 self.frame.locals[name] = fresh(old.t, name)
+        if '*' in fields:
+            # the body calls something that may write anything: every heap field seen so far or declared
+            # for the schemas, and every ghost variable
+            for sname, sc in self.spec.schemas.items():
+                for fn, ft in sc.fields.items():
+                    self.heap_arr((sname, fn), ft)
+            ghosts = set(ghosts) | set(self.st.ghost.keys())
         for key in list(self.st.heap.keys()):
-            if key[1] in fields or key in fields:
+            if '*' in fields or key[1] in fields or key in fields:
                 self.st.heap[key] = z3.Const(fresh_name('H_%s_%s' % key), self.st.heap[key].sort())
         for k in fields:
             if isinstance(k, tuple) and k not in self.st.heap:
